@@ -309,6 +309,14 @@ pub enum Gate {
     Park { parked: std::sync::mpsc::SyncSender<()>, resume: std::sync::mpsc::Receiver<()> },
     /// the reader itself fails by panicking (a faulty `Read` implementation of another caller)
     Panic,
+    /// the reader calls back into the library on the same thread before answering (a look-ahead,
+    /// validating or re-framing reader built on the same decoder); the callback is `REENTER`
+    Reenter,
+}
+
+thread_local! {
+    /// what a `Gate::Reenter` reader runs inside its read call (set and cleared by `two_actor_check`)
+    static REENTER: std::cell::Cell<Option<*const (dyn Fn() + 'static)>> = const { std::cell::Cell::new(None) };
 }
 
 impl SplitReader {
@@ -330,6 +338,13 @@ impl Read for SplitReader {
                     let _ = resume.recv();
                 }
                 Some((_, Gate::Panic)) => panic!("harness: injected reader panic at read call {}", self.reads),
+                Some((_, Gate::Reenter)) => {
+                    if let Some(p) = REENTER.with(|r| r.get()) {
+                        // SAFETY: the pointer is set by two_actor_check for the duration of the
+                        // outer decode call only and points to a closure that outlives it
+                        unsafe { (*p)() }
+                    }
+                }
                 None => {}
             }
         }
@@ -568,6 +583,29 @@ pub fn two_actor_check<T: PartialEq + Send + std::fmt::Debug>(
                     || witness("park", k),
                 ),
             }
+        }
+        // ---- N(k): the reader re-enters the decoder (same bytes, fresh reader) inside read call k
+        n += 1;
+        let nested_ok = std::cell::Cell::new(true);
+        let nested = || {
+            let r = decode(&mut SplitReader::new(bytes.to_vec(), vec![], usize::MAX));
+            if r != base {
+                nested_ok.set(false);
+            }
+        };
+        let nested_dyn: &dyn Fn() = &nested;
+        // SAFETY: lifetime erased for the thread-local; cleared before `nested` goes out of scope
+        let ptr: *const (dyn Fn() + 'static) = unsafe { std::mem::transmute::<*const (dyn Fn() + '_), *const (dyn Fn() + 'static)>(nested_dyn as *const _) };
+        REENTER.with(|r| r.set(Some(ptr)));
+        let outer = guarded(|| decode(&mut SplitReader::gated(bytes.to_vec(), k, Gate::Reenter)));
+        REENTER.with(|r| r.set(None));
+        let outer_ok = matches!(&outer, Caught::Ret(v) if *v == base);
+        if !outer_ok || !nested_ok.get() {
+            ctx.fail(
+                &format!("interleaving:{what}:reentrant_decode_from_inside_a_read_call"),
+                || format!("{what}: the reader ran a complete decode of the same bytes inside read call {k} of an outer decode; outer result {}, nested result {}", summarize(&outer), if nested_ok.get() { "as solo" } else { "differs from solo" }),
+                || witness("reenter", k),
+            );
         }
         // ---- F(k)
         n += 1;
